@@ -495,6 +495,9 @@ func (s *Server) pushReq(ctx context.Context, wantID bool, method string, params
 		if err != nil {
 			return nil, err
 		}
+		if fb := firstByte(v); fb != '[' && fb != '{' && !isNull(v) {
+			return nil, &Error{Code: InvalidRequest, Message: "invalid parameters: array or object required"}
+		}
 		bits = v
 	}
 	verifPoint("srv.push.enter", s, method)
